@@ -238,6 +238,12 @@ def run_step(eng, p):
                 filt._box_filters[f] = SArr(
                     [SBool(w.spec_box_feat(w.old, f, i)) for i in range(N)],
                     bool)
+        # the result array of the previous application (invalid events
+        # excluded iff that was requested then)
+        filt._array_props["invalid"] = SArr(
+            [SBool(z3.Implies(tobool(w.old["remove_invalid"]), z3.And(
+                [z3.Not(w.data[f][i].nan) for f in FEATS + PFEATS])))
+             for i in range(N)], bool)
         for pid in p["poly_cached"]:
             filt._poly_filters[pid] = (
                 "hash-%d-v%d" % (pid, w.ver_old[pid]),
